@@ -348,3 +348,139 @@ Proof.
   intros Hs HF. apply (process_days_rel (valuate_proc v) Rval DIok DIok); [|exact HF|split; [reflexivity|exact Hs]].
   intros; apply val_day_rel; assumption.
 Qed.
+
+(* ------------------------------------------------------------------ Filter *)
+
+Lemma filter_day_rel span (s1 s2 : unit) d1 d2 :
+  s1 = s2 -> DIok d1 d2 ->
+  req (fun a b => fst a = fst b /\ DIok (snd a) (snd b))
+      (process_day (filter_proc span) s1 d1) (process_day (filter_proc span) s2 d2).
+Proof.
+  intros <- [De Hok]. pose proof De as (E0 & _).
+  unfold process_day. proc_fields. cbn [rbind fst snd].
+  rewrite !fold_txns_none by reflexivity. cbn [rbind fst snd].
+  rewrite !fold_asserts_none by reflexivity. cbn [rbind]. rewrite !day_eta, <- E0.
+  cbn [req fst snd]. split; [reflexivity|].
+  destruct (period_contains span (d_date d1)).
+  - split; assumption.
+  - split; [apply set_txns_equiv; [exact De|constructor]|]. intros t p [].
+Qed.
+
+Theorem filter_stage_rel span s l1 l2 :
+  Forall2 DIok l1 l2 ->
+  req (fun a b => fst a = fst b /\ Forall2 DIok (snd a) (snd b))
+      (process_days (filter_proc span) s l1) (process_days (filter_proc span) s l2).
+Proof.
+  intros HF. apply (process_days_rel (filter_proc span) eq DIok DIok); [|exact HF|reflexivity].
+  intros; apply filter_day_rel; assumption.
+Qed.
+
+(* ------------------------------------------------------------------ CloseAccounts *)
+
+Definition close_upd (s : close_state) (p : posting) : close_state :=
+  if is_AL (p_acc p) || acc_eqb (p_acc p) equity_account then s
+  else mkClose (pos_add (c_qty s) (p_acc p) (p_com p) (p_qty p)) (pos_add (c_val s) (p_acc p) (p_com p) (p_val p)).
+
+Lemma close_posting_eq s t p : close_posting s t p = ROk (close_upd s p, p).
+Proof. unfold close_posting, close_upd. destruct (is_AL (p_acc p) || acc_eqb (p_acc p) equity_account); reflexivity. Qed.
+
+Lemma close_pstep_eq s tp : pstep close_posting s tp = ROk (close_upd s (snd tp)).
+Proof. unfold pstep. rewrite close_posting_eq. reflexivity. Qed.
+
+Definition Rclose (s s' : close_state) : Prop := s = s' /\ pos_accs_ok (c_qty s).
+
+Lemma close_upd_accs s p : account_ok (p_acc p) = true -> pos_accs_ok (c_qty s) -> pos_accs_ok (c_qty (close_upd s p)).
+Proof.
+  intros Ha Hs. unfold close_upd. destruct (is_AL (p_acc p) || acc_eqb (p_acc p) equity_account); [exact Hs|].
+  cbn [c_qty]. apply pos_add_accs_ok; assumption.
+Qed.
+
+Lemma close_upd_comm s x y :
+  account_ok (p_acc x) = true -> account_ok (p_acc y) = true ->
+  close_upd (close_upd s x) y = close_upd (close_upd s y) x.
+Proof.
+  intros Hx Hy. unfold close_upd.
+  destruct (is_AL (p_acc x) || acc_eqb (p_acc x) equity_account), (is_AL (p_acc y) || acc_eqb (p_acc y) equity_account);
+    try reflexivity.
+  cbn [c_qty c_val]. f_equal; apply pos_add_comm; assumption.
+Qed.
+
+Lemma close_txns_rel cds s1 s2 ts1 ts2 :
+  Rclose s1 s2 -> Permutation ts1 ts2 -> txns_accs_ok ts1 ->
+  req (fun a b => Rclose (fst a) (fst b) /\ snd a = ts1 /\ snd b = ts2)
+      (fold_txns (close_proc cds) s1 ts1) (fold_txns (close_proc cds) s2 ts2).
+Proof.
+  intros Hs P Hok. pose proof Hs as [<- Hs'].
+  assert (Hout : forall ts s' ts', fold_txns (close_proc cds) s1 ts = ROk (s', ts') -> ts' = ts).
+  { intros ts s' ts' E.
+    destruct (fold_txns_out (close_proc cds) close_posting (fun _ => True) (fun x => x) eq_refl eq_refl)
+      with (ts := ts) (s := s1) (s' := s') (ts' := ts') as [-> _]; auto.
+    - intros s t x s0 x' _ H. rewrite close_posting_eq in H. inversion H. auto.
+    - apply map_txn_map_id. }
+  apply (req_from_rfst Rclose (fun t => t = ts1) (fun t => t = ts2)).
+  - rewrite !(fold_txns_state (close_proc cds) close_posting) by reflexivity.
+    apply (fold_res_perm Rclose (pstep close_posting) (fun tp => account_ok (p_acc (snd tp)) = true)).
+    + intros a b c [-> Ha] [-> Hb]. split; [reflexivity|assumption].
+    + intros s s' a Ha [<- Hq]. rewrite close_pstep_eq. cbn [req]. split; [reflexivity|apply close_upd_accs; assumption].
+    + intros s a b Ha Hb [_ Hq]. rewrite !close_pstep_eq. cbn [rbind]. rewrite !close_pstep_eq. cbn [req].
+      split; [apply close_upd_comm; assumption|]. apply close_upd_accs; [assumption|]. apply close_upd_accs; assumption.
+    + apply items_perm. exact P.
+    + apply items_accs_ok. exact Hok.
+    + exact Hs.
+    + exact Hs.
+  - intros [s' ts'] E. cbn [snd]. eapply Hout. exact E.
+  - intros [s' ts'] E. cbn [snd]. eapply Hout. exact E.
+Qed.
+
+Lemma closing_txns_accs date qs vs : pos_accs_ok qs -> txns_accs_ok (closing_txns date qs vs).
+Proof.
+  induction qs as [|[k [[a c] q]] rest IH]; intros Hp; cbn [closing_txns]; [intros t p []|].
+  assert (Hr : pos_accs_ok rest) by (intros k' a' c' q' Hin; eapply Hp; right; exact Hin).
+  assert (Ha : account_ok a = true) by (eapply Hp; left; reflexivity).
+  destruct (is_zero q && is_zero _); [apply IH; exact Hr|].
+  intros t p [<-|Ht] Hpp.
+  - cbn [t_postings] in Hpp. apply pair_build_accs in Hpp. destruct Hpp as [->| ->]; [exact Ha|apply account_ok_equity].
+  - eapply (IH Hr); eassumption.
+Qed.
+
+Lemma close_day_rel cds s1 s2 d1 d2 :
+  Rclose s1 s2 -> DIok d1 d2 ->
+  req (fun a b => Rclose (fst a) (fst b) /\ DIok (snd a) (snd b))
+      (process_day (close_proc cds) s1 d1) (process_day (close_proc cds) s2 d2).
+Proof.
+  intros Hs [De Hok]. pose proof Hs as [<- Hs']. pose proof De as (E0 & E1 & E2 & E3 & E4 & E5 & E6).
+  unfold process_day. proc_fields. unfold close_day_start. rewrite <- E0.
+  assert (G : forall x1 x2, day_equiv x1 x2 -> day_accs_ok x1 ->
+    req (fun a b => Rclose (fst a) (fst b) /\ DIok (snd a) (snd b))
+      (rbind (ROk (s1, x1)) (fun sd =>
+         rbind (ROk (fst sd)) (fun s => rbind (ROk s) (fun s =>
+         rbind (fold_txns (close_proc cds) s (d_txns (snd sd))) (fun st =>
+         rbind (fold_asserts (close_proc cds) (fst st) (d_asserts (snd sd))) (fun s =>
+         rbind (ROk s) (fun s => ROk (s, mkDay (d_date (snd sd)) (d_prices (snd sd)) (d_opens (snd sd)) (snd st)
+                                              (d_asserts (snd sd)) (d_closes (snd sd)) (d_normalized (snd sd))))))))))
+      (rbind (ROk (s1, x2)) (fun sd =>
+         rbind (ROk (fst sd)) (fun s => rbind (ROk s) (fun s =>
+         rbind (fold_txns (close_proc cds) s (d_txns (snd sd))) (fun st =>
+         rbind (fold_asserts (close_proc cds) (fst st) (d_asserts (snd sd))) (fun s =>
+         rbind (ROk s) (fun s => ROk (s, mkDay (d_date (snd sd)) (d_prices (snd sd)) (d_opens (snd sd)) (snd st)
+                                              (d_asserts (snd sd)) (d_closes (snd sd)) (d_normalized (snd sd))))))))))).
+  { intros x1 x2 Dx Hx. pose proof Dx as (F0 & F1 & F2 & F3 & F4 & F5 & F6). cbn [rbind fst snd].
+    eapply req_bind; [apply close_txns_rel; [exact Hs|exact F3|exact Hx]|].
+    intros [a1 t1] [a2 t2] (Ha & Ht1 & Ht2). cbn [fst snd] in *. subst t1 t2.
+    rewrite !fold_asserts_none by reflexivity. cbn [rbind req fst snd]. split; [exact Ha|].
+    rewrite !day_eta. split; assumption. }
+  destruct (existsb (Z.eqb (d_date d1)) cds).
+  - apply G.
+    + apply set_txns_equiv; [exact De|]. apply Permutation_app_tail. exact E3.
+    + unfold day_accs_ok. cbn [set_txns d_txns]. apply txns_accs_ok_app; [exact Hok|]. apply closing_txns_accs. exact Hs'.
+  - apply G; assumption.
+Qed.
+
+Theorem close_stage_rel cds s l1 l2 :
+  pos_accs_ok (c_qty s) -> Forall2 DIok l1 l2 ->
+  req (fun a b => Rclose (fst a) (fst b) /\ Forall2 DIok (snd a) (snd b))
+      (process_days (close_proc cds) s l1) (process_days (close_proc cds) s l2).
+Proof.
+  intros Hs HF. apply (process_days_rel (close_proc cds) Rclose DIok DIok); [|exact HF|split; [reflexivity|exact Hs]].
+  intros; apply close_day_rel; assumption.
+Qed.
